@@ -1121,3 +1121,29 @@ def show_diff(a, b, limit=4, width=260):
     for x, y in nf_diff(a, b)[:limit]:
         out.append(f"[{show_any(x)[:width]}]  vs  [{show_any(y)[:width]}]")
     return out
+
+
+def node_size(x, _seen=None):
+    """number of distinct nodes of a normal-form structure"""
+    seen = set() if _seen is None else _seen
+    stack = [x]
+    n = 0
+    while stack:
+        y = stack.pop()
+        if isinstance(y, Node):
+            if id(y) in seen:
+                continue
+            seen.add(id(y))
+            n += 1
+            stack.extend(y.kids)
+        elif isinstance(y, (tuple, frozenset)):
+            stack.extend(y)
+        else:
+            n += 1
+    return n
+
+
+def diff_stats(a, b):
+    sites = nf_diff(a, b, limit=50)
+    sizes = [node_size(x) + node_size(y) for x, y in sites]
+    return len(sites), (max(sizes) if sizes else 0), sum(sizes)
